@@ -813,19 +813,24 @@ def race_handler(job, tier, seed, workdir, drv):
             first = [l for l in p.stderr.splitlines() if l.startswith("RACE-MISMATCH")][:2]
             violations.append({"class": "wrong_result", "what": "[wrong_result] %s call(s) returned a wrong answer while %s real threads used the crate concurrently: %s" % (m.group(3), m.group(1), " | ".join(first)),
                                "replay_argv": None, "detail": {"class": "wrong_result", "threads": int(m.group(1))}})
-    hg = subprocess.run(["valgrind", "--tool=helgrind", "-q", "--num-callers=24", exe, "--threads", "3", "--rounds", "1" if tier == "quick" else "2"],
-                        stdout=subprocess.PIPE, stderr=subprocess.PIPE, text=True, timeout=3600)
-    if "RACE-HARNESS" not in hg.stdout:
-        drv.log(hg.stderr[-2000:])
-        drv.machinery("race harness did not complete under helgrind")
-    blocks = re.split(r"\n==\d+== \n", hg.stderr)
+    hg_err = ""
+    for extra in ([], ["--cold"]):
+        # warm: dispatch cells and lazily built state initialised before the
+        # threads start; cold: every first construction / call is concurrent
+        hg = subprocess.run(["valgrind", "--tool=helgrind", "-q", "--num-callers=24", exe, "--threads", "3", "--rounds", "1" if tier == "quick" else "2"] + extra,
+                            stdout=subprocess.PIPE, stderr=subprocess.PIPE, text=True, timeout=3600)
+        if "RACE-HARNESS" not in hg.stdout:
+            drv.log(hg.stderr[-2000:])
+            drv.machinery("race harness did not complete under helgrind")
+        hg_err += "\n" + hg.stderr
+    blocks = re.split(r"\n==\d+== \n", hg_err)
     reports = [b for b in blocks if "Possible data race" in b]
     in_crate = []
     for b in reports:
         heads = [l for l in b.splitlines() if re.search(r"==\s+at 0x", l)]
         # an access made through core's atomics (a Relaxed store is a plain
         # mov to helgrind) is not a data race
-        if any("(atomic.rs:" in l for l in heads):
+        if any(re.search(r"[/(]atomic\.rs:\d+\)", l) for l in heads):
             continue
         if re.search(r"\bmemchr::", b):
             in_crate.append(b)
@@ -837,7 +842,7 @@ def race_handler(job, tier, seed, workdir, drv):
            "histogram": {"helgrind reports (all)": len(reports), "helgrind reports with a frame in the crate and no atomic access": len(in_crate)},
            "samples": [{"harness": "2..8 real threads; every dispatched routine on 14 lengths, 10 needles x 10 haystack lengths through the free functions, fresh and SHARED Finder/FinderRev, is_equal/is_prefix/is_suffix", "runs": runs}],
            "violation_count": len(violations), "violations": violations[:8], "machinery_errors": [], "caps_hit": [],
-           "extra": {"exhaustive": True, "nontrivial_rule": "every call is compared with the naive reference", "bounds": {"native_runs": runs, "of_which_cold_processes": runs // 2, "threads": "2..8", "helgrind_runs": 1},
+           "extra": {"exhaustive": True, "nontrivial_rule": "every call is compared with the naive reference", "bounds": {"native_runs": runs, "of_which_cold_processes": runs // 2, "threads": "2..8", "helgrind_runs": "1 warm + 1 cold"},
                      "note": "free-running complement of the loom exploration: schedules are NOT enumerated here; helgrind's happens-before analysis flags conflicting unsynchronised accesses independently of the schedule that happened to run"}}
     for v in violations:
         res["histogram"]["violation/" + v["class"]] = res["histogram"].get("violation/" + v["class"], 0) + 1
